@@ -261,3 +261,11 @@ Proof.
   - apply incl_appr, incl_refl.
   - apply incl_appr, incl_refl.
 Qed.
+
+(* lst = x.f; lst += vs  (the in-place operator reaches the container through another reference): only the builtin runs, no __set__
+   follows: the new elements are in the field and nothing is recorded (known finding C16-n) *)
+Theorem refuted_alias_inplace : exists k s vs x, wf k (items s) /\ incl (items s) (rec s) /\
+  In x (items (builtin_iaug k vs s)) /\ ~ In x (rec (builtin_iaug k vs s)).
+Proof.
+  exists KList, (init KList []), [1], 1. split; [exact I|]. split; [intros y []|]. simpl. split; [now left | intros []].
+Qed.
